@@ -15,6 +15,8 @@ class Location(Job):
 
     def __init__(self, n, bbox, has_range, canary=None):
         self.n, self.bbox, self.has_range, self.canary = n, bbox, has_range, canary
+        if not has_range:
+            self.offgrid = "scale"      # box membership only compares: exact on every float
         self.name = f"location n={n} bbox={bbox} range_max={'y' if has_range else 'n'}" + (
             f" CANARY={canary}" if canary else "")
         if canary:
